@@ -7,7 +7,7 @@ namespace SaphyrVerif.Lemmas.C14
 open SaphyrVerif.Anchors SaphyrVerif.Spec.Anchors
 
 /-- every id of the pointer table lies in `1 … next-1` -/
-def TableOK' (a : List (Ptr × Nat)) (n : Nat) : Prop := ∀ p id, a.lookup p = some id → 1 ≤ id ∧ id < n
+def TableOK' (a : List (Ptr × Nat)) (n : Nat) : Prop := ∀ p id, (p, id) ∈ a → 1 ≤ id ∧ id < n
 def TableOK (s : SerSt) : Prop := TableOK' s.anchors s.next
 
 /-- distinct pointers have distinct ids -/
@@ -48,28 +48,39 @@ theorem lookup_cons_ne {β : Type} (p q : Ptr) (b : β) (l : List (Ptr × β)) (
   have : (q == p) = false := by simpa using h
   simp [List.lookup, this]
 
+theorem lookup_mem {β : Type} : ∀ (l : List (Ptr × β)) (p : Ptr) (b : β), l.lookup p = some b → (p, b) ∈ l
+  | [], _, _, h => by simp [List.lookup] at h
+  | (q, c) :: l, p, b, h => by
+    by_cases hpq : p = q
+    · subst hpq
+      rw [lookup_cons_self] at h
+      cases h
+      exact List.mem_cons_self ..
+    · rw [lookup_cons_ne _ _ _ _ hpq] at h
+      exact List.mem_cons_of_mem _ (lookup_mem l p b h)
+
+theorem tableOK_lookup {a : List (Ptr × Nat)} {n : Nat} (h : TableOK' a n) {p : Ptr} {id : Nat}
+    (hl : a.lookup p = some id) : 1 ≤ id ∧ id < n := h p id (lookup_mem a p id hl)
+
+theorem tableOK_filter (a : List (Ptr × Nat)) (n : Nat) (f : Ptr × Nat → Bool) (h : TableOK' a n) :
+    TableOK' (a.filter f) n := fun p id hm => h p id (List.mem_filter.mp hm).1
+
 theorem tableOK_alloc (a : List (Ptr × Nat)) (n : Nat) (p : Ptr) (h : TableOK' a n) (h1 : 1 ≤ n) :
     TableOK' ((p, n) :: a) (n + 1) := by
   intro q id hq
-  by_cases hqp : q = p
-  · subst hqp
-    rw [lookup_cons_self] at hq
-    cases hq
-    exact ⟨h1, Nat.lt_succ_self _⟩
-  · rw [lookup_cons_ne _ _ _ _ hqp] at hq
-    have := h q id hq
+  simp only [List.mem_cons, Prod.mk.injEq] at hq
+  rcases hq with ⟨_, rfl⟩ | hq
+  · exact ⟨h1, Nat.lt_succ_self _⟩
+  · have := h q id hq
     exact ⟨this.1, Nat.lt_succ_of_lt this.2⟩
 
 theorem tableOK_share (a : List (Ptr × Nat)) (n : Nat) (p : Ptr) (id : Nat) (h : TableOK' a n)
     (h1 : 1 ≤ id) (h2 : id < n) : TableOK' ((p, id) :: a) n := by
   intro q id' hq
-  by_cases hqp : q = p
-  · subst hqp
-    rw [lookup_cons_self] at hq
-    cases hq
-    exact ⟨h1, h2⟩
-  · rw [lookup_cons_ne _ _ _ _ hqp] at hq
-    exact h q id' hq
+  simp only [List.mem_cons, Prod.mk.injEq] at hq
+  rcases hq with ⟨_, rfl⟩ | hq
+  · exact ⟨h1, h2⟩
+  · exact h q id' hq
 
 theorem tableInj_alloc (a : List (Ptr × Nat)) (n : Nat) (p : Ptr) (h : TableInj' a) (hok : TableOK' a n) :
     TableInj' ((p, n) :: a) := by
@@ -81,18 +92,38 @@ theorem tableInj_alloc (a : List (Ptr × Nat)) (n : Nat) (p : Ptr) (h : TableInj
       rw [lookup_cons_self] at ha
       rw [lookup_cons_ne _ _ _ _ hbp] at hb
       cases ha
-      have := (hok b _ hb).2
+      have := (tableOK_lookup hok hb).2
       exact absurd this (Nat.lt_irrefl _)
   · by_cases hbp : b = p
     · subst hbp
       rw [lookup_cons_self] at hb
       rw [lookup_cons_ne _ _ _ _ hap] at ha
       cases hb
-      have := (hok a _ ha).2
+      have := (tableOK_lookup hok ha).2
       exact absurd this (Nat.lt_irrefl _)
     · rw [lookup_cons_ne _ _ _ _ hap] at ha
       rw [lookup_cons_ne _ _ _ _ hbp] at hb
       exact h a b id ha hb
+
+/-! ### the block-scalar path: the pending pointer is forgotten -/
+
+theorem forgetPending_none (s : SerSt) (h : s.pending = none) : forgetPending s = s := by
+  simp [forgetPending, h]
+
+theorem forgetPending_pending (s : SerSt) : (forgetPending s).pending = none := by
+  unfold forgetPending; split <;> simp_all
+
+theorem forgetPending_next (s : SerSt) : (forgetPending s).next = s.next := by
+  unfold forgetPending; split <;> rfl
+
+theorem forgetPending_held (s : SerSt) : (forgetPending s).held = s.held := by
+  unfold forgetPending; split <;> rfl
+
+theorem forgetPending_tableOK (s : SerSt) (h : TableOK s) : TableOK (forgetPending s) := by
+  unfold forgetPending
+  split
+  · exact h
+  · exact tableOK_filter _ _ _ h
 
 /-! ### monotonicity of `idsBelow` -/
 
@@ -154,7 +185,7 @@ theorem serPtr_range (rec : SerSt → Val → Except SerErr (Out × SerSt)) (ih 
     · rw [ha] at h
       simp only [Except.ok.injEq, Prod.mk.injEq] at h
       obtain ⟨rfl, rfl⟩ := h
-      have := ht p id hl
+      have := tableOK_lookup ht hl
       exact ⟨by simp [idsBelow, this.1, this.2], ht, hp, Nat.le_refl _⟩
     · rw [ha] at h
       simp only at h
@@ -247,7 +278,10 @@ theorem ser_range (H : Heap) : ∀ (fuel : Nat), RangeIH fuel H := by
         exact range_taking_leaf s k ht hp
       · simp only [Except.ok.injEq, Prod.mk.injEq] at h
         obtain ⟨rfl, rfl⟩ := h
-        exact ⟨by simp [idsBelow], ht, hp, Nat.le_refl _⟩
+        refine ⟨by simp [idsBelow], forgetPending_tableOK s ht, ?_, by rw [forgetPending_next]; exact Nat.le_refl _⟩
+        intro id hid
+        rw [forgetPending_pending] at hid
+        cases hid
     | node isMap items =>
       simp only [serVal] at h
       cases hl : traverse (fun st x => serVal fuel H st x) { s with pending := none } items with
@@ -331,7 +365,7 @@ theorem serPtr_scoped (rec : SerSt → Val → Except SerErr (Out × SerSt)) (ih
   · rw [ha] at h
     simp only [Except.ok.injEq, Prod.mk.injEq] at h
     obtain ⟨rfl, rfl⟩ := h
-    have := ht p id hl
+    have := tableOK_lookup ht hl
     refine ⟨?_, hp0, ht, Nat.le_refl _, hi⟩
     have hle : id ≤ s.next - 1 := by omega
     simp [wellScoped, emitted_none s hp0, this.1, hle]
@@ -416,6 +450,7 @@ theorem ser_scoped (H : Heap) (hH : AnchorTaking H) : ∀ (fuel : Nat), ScopedIH
         simp only [Except.ok.injEq, Prod.mk.injEq] at h
         obtain ⟨rfl, rfl⟩ := h
         have hp0 := pendOK_wrapper_none s _ (by simpa [takesRoot] using htk) hp
+        rw [forgetPending_none s hp0]
         exact ⟨by simp [wellScoped, emitted, hp0], hp0, ht, Nat.le_refl _, hi⟩
     | node isMap items =>
       simp only [serVal] at h
@@ -535,23 +570,174 @@ theorem ser_fuel_succ (H : Heap) : ∀ (fuel : Nat) (s : SerSt) (v : Val) (r : O
         rw [hc] at h
         exact serPtr_congr_ok _ _ (fun s x r => ih s x r) s k p payload r h
 
+/-! ### no anchor is ever left pending after a value has been written -/
+
+abbrev ClearRec (rec : SerSt → Val → Except SerErr (Out × SerSt)) : Prop :=
+  ∀ s v o s', rec s v = .ok (o, s') → s'.pending = none
+
+theorem serPtr_clear (rec : SerSt → Val → Except SerErr (Out × SerSt)) (ih : ClearRec rec)
+    (s : SerSt) (k : Kind) (p : Ptr) (payload : Val) (o : Out) (s' : SerSt)
+    (h : serPtr rec s k p payload = .ok (o, s')) : s'.pending = none := by
+  unfold serPtr at h
+  have fresh : ∀ (st : SerSt),
+      (if (k == Kind.arcRec && s.held.contains p) = true then Except.error SerErr.deadlock
+        else match rec st payload with
+          | .error e => .error e
+          | .ok (o, s2) => .ok (o, { s2 with held := s.held })) = .ok (o, s') → s'.pending = none := by
+    intro st h
+    split at h
+    · cases h
+    · split at h
+      · cases h
+      · rename_i x o2 s2 hrec
+        simp only [Except.ok.injEq, Prod.mk.injEq] at h
+        rw [← h.2]
+        exact ih st payload o2 s2 hrec
+  cases hpend : s.pending with
+  | none =>
+    rcases alloc_cases s p hpend with ⟨id, hl, ha⟩ | ⟨hl, ha⟩
+    · rw [ha] at h
+      simp only [Except.ok.injEq, Prod.mk.injEq] at h
+      rw [← h.2]; exact hpend
+    · rw [ha] at h
+      exact fresh _ h
+  | some outer =>
+    rcases alloc_cases_pending s p outer hpend with ⟨id, hl, ha⟩ | ⟨hl, ha⟩
+    · rw [ha] at h; cases h
+    · rw [ha] at h
+      exact fresh _ h
+
+theorem traverse_clear {α β ε : Type} (f : SerSt → α → Except ε (β × SerSt))
+    (hf : ∀ s x y s', f s x = .ok (y, s') → s'.pending = none) :
+    ∀ (xs : List α) (s : SerSt) (ys : List β) (s' : SerSt), traverse f s xs = .ok (ys, s') →
+      s.pending = none → s'.pending = none := by
+  intro xs
+  induction xs with
+  | nil =>
+    intro s ys s' h hp
+    simp only [traverse, Except.ok.injEq, Prod.mk.injEq] at h
+    rw [← h.2]; exact hp
+  | cons x xs ihl =>
+    intro s ys s' h _
+    simp only [traverse] at h
+    cases hx : f s x with
+    | error e => rw [hx] at h; cases h
+    | ok r =>
+      obtain ⟨y, s1⟩ := r
+      rw [hx] at h
+      simp only at h
+      cases hxs : traverse f s1 xs with
+      | error e => rw [hxs] at h; cases h
+      | ok r2 =>
+        obtain ⟨ys2, s2⟩ := r2
+        rw [hxs] at h
+        simp only [Except.ok.injEq, Prod.mk.injEq] at h
+        rw [← h.2]
+        exact ihl s1 ys2 s2 hxs (hf s x y s1 hx)
+
+theorem ser_clear (H : Heap) : ∀ (fuel : Nat), ClearRec (fun s v => serVal fuel H s v) := by
+  intro fuel
+  induction fuel with
+  | zero => intro s v o s' h; simp [serVal] at h
+  | succ fuel ih =>
+    intro s v o s' h
+    cases v with
+    | leaf k =>
+      simp only [serVal] at h
+      split at h
+      · simp only [Except.ok.injEq, Prod.mk.injEq] at h
+        rw [← h.2]
+      · simp only [Except.ok.injEq, Prod.mk.injEq] at h
+        rw [← h.2]; exact forgetPending_pending s
+    | node isMap items =>
+      simp only [serVal] at h
+      cases hl : traverse (fun st x => serVal fuel H st x) { s with pending := none } items with
+      | error e => rw [hl] at h; cases h
+      | ok r =>
+        obtain ⟨outs, s2⟩ := r
+        rw [hl] at h
+        simp only [Except.ok.injEq, Prod.mk.injEq] at h
+        rw [← h.2]
+        exact traverse_clear _ (fun s x y s' hh => ih s x y s' hh) items _ outs s2 hl rfl
+    | strong k tid p =>
+      simp only [serVal] at h
+      cases hc : List.lookup p H with
+      | none => rw [hc] at h; cases h
+      | some payload =>
+        rw [hc] at h
+        exact serPtr_clear _ ih s k p payload o s' h
+    | weak k tid p =>
+      simp only [serVal] at h
+      cases hc : List.lookup p H with
+      | none =>
+        rw [hc] at h
+        simp only [Except.ok.injEq, Prod.mk.injEq] at h
+        rw [← h.2]
+      | some payload =>
+        rw [hc] at h
+        exact serPtr_clear _ ih s k p payload o s' h
+
 /-! ### the serializer never locks a mutex it already holds -/
 
 /-- every cell whose mutex is held has an entry in the pointer table (it is being defined) -/
 def HeldSeen (s : SerSt) : Prop := ∀ q, q ∈ s.held → s.anchors.lookup q ≠ none
 
+/-- a pointer of the table is still there afterwards, unless it was registered under the anchor that
+was pending on entry (a block scalar may forget exactly those) -/
+def Grow (s s' : SerSt) : Prop :=
+  ∀ q, s.anchors.lookup q ≠ none →
+    s'.anchors.lookup q ≠ none ∨ ∃ id, s.pending = some id ∧ s.anchors.lookup q = some id
+
 structure NoDlPost (s s' : SerSt) : Prop where
   held : s'.held = s.held
-  grow : ∀ q, s.anchors.lookup q ≠ none → s'.anchors.lookup q ≠ none
+  grow : Grow s s'
+  pend : s'.pending = none
+  tab : TableOK s'
+  mono : s.next ≤ s'.next
 
 abbrev NoDlRec (rec : SerSt → Val → Except SerErr (Out × SerSt)) : Prop :=
-  ∀ s v, HeldSeen s → rec s v ≠ .error .deadlock ∧ ∀ o s', rec s v = .ok (o, s') → NoDlPost s s'
+  ∀ s v, HeldSeen s → TableOK s → PendRange s → 1 ≤ s.next →
+    rec s v ≠ .error .deadlock ∧ ∀ o s', rec s v = .ok (o, s') → NoDlPost s s'
 
 theorem lookup_cons_grow (a : List (Ptr × Nat)) (p : Ptr) (id : Nat) (q : Ptr) (h : a.lookup q ≠ none) :
     List.lookup q ((p, id) :: a) ≠ none := by
   by_cases hq : q = p
   · subst hq; rw [lookup_cons_self]; simp
   · rw [lookup_cons_ne _ _ _ _ hq]; exact h
+
+theorem lookup_filter_or (id : Nat) : ∀ (a : List (Ptr × Nat)) (q : Ptr), a.lookup q ≠ none →
+    (a.filter (fun e => e.2 != id)).lookup q ≠ none ∨ a.lookup q = some id
+  | [], q, h => by simp [List.lookup] at h
+  | (r, i) :: t, q, h => by
+    by_cases hq : q = r
+    · subst hq
+      rw [lookup_cons_self]
+      by_cases hi : i = id
+      · exact Or.inr (by rw [hi])
+      · left
+        have : ((i != id) = true) := by simpa using hi
+        simp only [List.filter, this]
+        rw [lookup_cons_self]; simp
+    · rw [lookup_cons_ne _ _ _ _ hq] at h ⊢
+      rcases lookup_filter_or id t q h with h1 | h1
+      · left
+        simp only [List.filter]
+        split
+        · rw [lookup_cons_ne _ _ _ _ hq]; exact h1
+        · exact h1
+      · exact Or.inr h1
+
+theorem grow_refl (s : SerSt) : Grow s s := fun _ h => Or.inl h
+
+theorem grow_forget (s : SerSt) : Grow s (forgetPending s) := by
+  intro q h
+  unfold forgetPending
+  cases hp : s.pending with
+  | none => exact Or.inl h
+  | some id =>
+    rcases lookup_filter_or id s.anchors q h with h1 | h1
+    · exact Or.inl h1
+    · exact Or.inr ⟨id, rfl, h1⟩
 
 theorem heldSeen_define (s : SerSt) (k : Kind) (p : Ptr) (id n : Nat) (pend : Option Nat) (hs : HeldSeen s) :
     HeldSeen (SerSt.mk ((p, id) :: s.anchors) n pend (lockCell k p s.held)) := by
@@ -569,10 +755,14 @@ theorem heldSeen_define (s : SerSt) (k : Kind) (p : Ptr) (id n : Nat) (pend : Op
     exact lookup_cons_grow _ _ _ _ (hs q this)
 
 theorem serPtr_nodl (rec : SerSt → Val → Except SerErr (Out × SerSt)) (ih : NoDlRec rec)
-    (s : SerSt) (k : Kind) (p : Ptr) (payload : Val) (hs : HeldSeen s) :
+    (s : SerSt) (k : Kind) (p : Ptr) (payload : Val) (hs : HeldSeen s) (ht : TableOK s)
+    (hp : PendRange s) (h1 : 1 ≤ s.next) :
     serPtr rec s k p payload ≠ .error .deadlock ∧
       ∀ o s', serPtr rec s k p payload = .ok (o, s') → NoDlPost s s' := by
-  have define : ∀ (id n : Nat), s.anchors.lookup p = none →
+  -- the definition of a pointer that is not in the table, under anchor `id`
+  have define : ∀ (id n : Nat), s.anchors.lookup p = none → TableOK' ((p, id) :: s.anchors) n →
+      1 ≤ id → id < n → s.next ≤ n →
+      (∀ q, s.anchors.lookup q = some id → s.pending = some id) →
       let st := SerSt.mk ((p, id) :: s.anchors) n (some id) (lockCell k p s.held)
       ((if (k == Kind.arcRec && s.held.contains p) = true then Except.error SerErr.deadlock
         else match rec st payload with
@@ -582,7 +772,7 @@ theorem serPtr_nodl (rec : SerSt → Val → Except SerErr (Out × SerSt)) (ih :
         else match rec st payload with
           | .error e => .error e
           | .ok (o, s2) => .ok (o, { s2 with held := s.held })) = .ok (o, s') → NoDlPost s s' := by
-    intro id n hl st
+    intro id n hl htab hid1 hid2 hn hshare st
     have hnh : s.held.contains p = false := by
       cases hc : s.held.contains p with
       | false => rfl
@@ -590,7 +780,9 @@ theorem serPtr_nodl (rec : SerSt → Val → Except SerErr (Out × SerSt)) (ih :
         have := hs p (by simpa using hc)
         exact absurd hl this
     have hst : HeldSeen st := heldSeen_define s k p id n (some id) hs
-    obtain ⟨i1, i2⟩ := ih st payload hst
+    obtain ⟨i1, i2⟩ := ih st payload hst htab
+      (by intro j hj; simp only [st, Option.some.injEq] at hj; subst hj; exact ⟨hid1, hid2⟩)
+      (Nat.le_trans h1 hn)
     simp only [hnh, Bool.and_false, Bool.false_eq_true, if_false]
     constructor
     · cases hr : rec st payload with
@@ -610,7 +802,19 @@ theorem serPtr_nodl (rec : SerSt → Val → Except SerErr (Out × SerSt)) (ih :
         simp only [Except.ok.injEq, Prod.mk.injEq] at h
         obtain ⟨rfl, rfl⟩ := h
         have post := i2 o2 s2 hr
-        exact ⟨rfl, fun q hq => post.grow q (lookup_cons_grow _ _ _ _ hq)⟩
+        refine ⟨rfl, ?_, post.pend, post.tab, Nat.le_trans hn post.mono⟩
+        intro q hq
+        have hq0 : st.anchors.lookup q ≠ none := lookup_cons_grow _ _ _ _ hq
+        rcases post.grow q hq0 with g | ⟨j, hj, hqj⟩
+        · exact Or.inl g
+        · simp only [st, Option.some.injEq] at hj
+          subst hj
+          have hqp : q ≠ p := by
+            intro e; rw [e] at hq; exact hq hl
+          have hqs : s.anchors.lookup q = some id := by
+            have : List.lookup q ((p, id) :: s.anchors) = some id := hqj
+            rwa [lookup_cons_ne _ _ _ _ hqp] at this
+          exact Or.inr ⟨id, hshare q hqs, hqs⟩
   unfold serPtr
   cases hpend : s.pending with
   | none =>
@@ -620,33 +824,41 @@ theorem serPtr_nodl (rec : SerSt → Val → Except SerErr (Out × SerSt)) (ih :
       intro o s' h
       simp only [Except.ok.injEq, Prod.mk.injEq] at h
       rw [← h.2]
-      exact ⟨rfl, fun _ h => h⟩
+      exact ⟨rfl, grow_refl s, hpend, ht, Nat.le_refl _⟩
     · rw [ha]
-      exact define s.next (s.next + 1) hl
+      refine define s.next (s.next + 1) hl (tableOK_alloc _ _ p ht h1) h1 (Nat.lt_succ_self _)
+        (Nat.le_succ _) ?_
+      intro q hq
+      exact absurd (tableOK_lookup ht hq).2 (Nat.lt_irrefl _)
   | some outer =>
+    have hr := hp outer hpend
     rcases alloc_cases_pending s p outer hpend with ⟨id, hl, ha⟩ | ⟨hl, ha⟩
     · rw [ha]
       exact ⟨by simp, by intro o s' h; cases h⟩
     · rw [ha]
-      exact define outer s.next hl
+      exact define outer s.next hl (tableOK_share _ _ p outer ht hr.1 hr.2) hr.1 hr.2 (Nat.le_refl _)
+        (fun _ _ => hpend)
 
 theorem ser_list_nodl (fuel : Nat) (H : Heap) (ih : NoDlRec (fun s v => serVal fuel H s v)) :
-    ∀ (items : List Val) (s : SerSt), HeldSeen s →
+    ∀ (items : List Val) (s : SerSt), HeldSeen s → TableOK s → s.pending = none → 1 ≤ s.next →
       traverse (fun st x => serVal fuel H st x) s items ≠ .error .deadlock ∧
-      ∀ outs s', traverse (fun st x => serVal fuel H st x) s items = .ok (outs, s') → NoDlPost s s' := by
+      ∀ outs s', traverse (fun st x => serVal fuel H st x) s items = .ok (outs, s') →
+        s'.held = s.held ∧ (∀ q, s.anchors.lookup q ≠ none → s'.anchors.lookup q ≠ none) ∧
+        s'.pending = none ∧ TableOK s' ∧ s.next ≤ s'.next := by
   intro items
   induction items with
   | nil =>
-    intro s _
+    intro s _ ht hp _
     refine ⟨by simp [traverse], ?_⟩
     intro outs s' h
     simp only [traverse, Except.ok.injEq, Prod.mk.injEq] at h
     rw [← h.2]
-    exact ⟨rfl, fun _ h => h⟩
+    exact ⟨rfl, fun _ h => h, hp, ht, Nat.le_refl _⟩
   | cons x xs ihl =>
-    intro s hs
-    have i1 : serVal fuel H s x ≠ .error .deadlock := (ih s x hs).1
-    have i2 : ∀ o s', serVal fuel H s x = .ok (o, s') → NoDlPost s s' := (ih s x hs).2
+    intro s hs ht hp h1
+    have hpr : PendRange s := by intro id hid; rw [hp] at hid; cases hid
+    have i1 : serVal fuel H s x ≠ .error .deadlock := (ih s x hs ht hpr h1).1
+    have i2 : ∀ o s', serVal fuel H s x = .ok (o, s') → NoDlPost s s' := (ih s x hs ht hpr h1).2
     simp only [traverse]
     cases hx : serVal fuel H s x with
     | error e =>
@@ -658,11 +870,16 @@ theorem ser_list_nodl (fuel : Nat) (H : Heap) (ih : NoDlRec (fun s v => serVal f
     | ok r =>
       obtain ⟨y, s1⟩ := r
       have p1 := i2 y s1 hx
+      have g1 : ∀ q, s.anchors.lookup q ≠ none → s1.anchors.lookup q ≠ none := by
+        intro q hq
+        rcases p1.grow q hq with g | ⟨id, hid, _⟩
+        · exact g
+        · rw [hp] at hid; cases hid
       have hs1 : HeldSeen s1 := by
         intro q hq
         rw [p1.held] at hq
-        exact p1.grow q (hs q hq)
-      obtain ⟨j1, j2⟩ := ihl s1 hs1
+        exact g1 q (hs q hq)
+      obtain ⟨j1, j2⟩ := ihl s1 hs1 p1.tab p1.pend (Nat.le_trans h1 p1.mono)
       simp only
       cases hxs : traverse (fun st x => serVal fuel H st x) s1 xs with
       | error e =>
@@ -677,15 +894,15 @@ theorem ser_list_nodl (fuel : Nat) (H : Heap) (ih : NoDlRec (fun s v => serVal f
         intro outs s' h
         simp only [Except.ok.injEq, Prod.mk.injEq] at h
         rw [← h.2]
-        have p2 := j2 ys s2 hxs
-        exact ⟨p2.held.trans p1.held, fun q hq => p2.grow q (p1.grow q hq)⟩
+        obtain ⟨k1, k2, k3, k4, k5⟩ := j2 ys s2 hxs
+        exact ⟨k1.trans p1.held, fun q hq => k2 q (g1 q hq), k3, k4, Nat.le_trans p1.mono k5⟩
 
 theorem ser_nodl (H : Heap) : ∀ (fuel : Nat), NoDlRec (fun s v => serVal fuel H s v) := by
   intro fuel
   induction fuel with
-  | zero => intro s v _; simp [serVal]
+  | zero => intro s v _ _ _ _; simp [serVal]
   | succ fuel ih =>
-    intro s v hs
+    intro s v hs ht hp h1
     cases v with
     | leaf k =>
       simp only [serVal]
@@ -694,16 +911,17 @@ theorem ser_nodl (H : Heap) : ∀ (fuel : Nat), NoDlRec (fun s v => serVal fuel 
         intro o s' h
         simp only [Except.ok.injEq, Prod.mk.injEq] at h
         rw [← h.2]
-        exact ⟨rfl, fun _ h => h⟩
+        exact ⟨rfl, grow_refl s, rfl, ht, Nat.le_refl _⟩
       · refine ⟨by simp, ?_⟩
         intro o s' h
         simp only [Except.ok.injEq, Prod.mk.injEq] at h
         rw [← h.2]
-        exact ⟨rfl, fun _ h => h⟩
+        exact ⟨forgetPending_held s, grow_forget s, forgetPending_pending s, forgetPending_tableOK s ht,
+          by rw [forgetPending_next]; exact Nat.le_refl _⟩
     | node isMap items =>
       simp only [serVal]
       have hs1 : HeldSeen { s with pending := none } := hs
-      obtain ⟨j1, j2⟩ := ser_list_nodl fuel H ih items _ hs1
+      obtain ⟨j1, j2⟩ := ser_list_nodl fuel H ih items _ hs1 ht rfl h1
       cases hl : traverse (fun st x => serVal fuel H st x) { s with pending := none } items with
       | error e =>
         refine ⟨?_, by intro o s' h; cases h⟩
@@ -717,13 +935,13 @@ theorem ser_nodl (H : Heap) : ∀ (fuel : Nat), NoDlRec (fun s v => serVal fuel 
         intro o s' h
         simp only [Except.ok.injEq, Prod.mk.injEq] at h
         rw [← h.2]
-        have := j2 outs s2 hl
-        exact ⟨this.held, this.grow⟩
+        obtain ⟨k1, k2, k3, k4, k5⟩ := j2 outs s2 hl
+        exact ⟨k1, fun q hq => Or.inl (k2 q hq), k3, k4, k5⟩
     | strong k tid p =>
       simp only [serVal]
       cases hc : List.lookup p H with
       | none => exact ⟨by simp, by intro o s' h; cases h⟩
-      | some payload => exact serPtr_nodl _ ih s k p payload hs
+      | some payload => exact serPtr_nodl _ ih s k p payload hs ht hp h1
     | weak k tid p =>
       simp only [serVal]
       cases hc : List.lookup p H with
@@ -732,7 +950,7 @@ theorem ser_nodl (H : Heap) : ∀ (fuel : Nat), NoDlRec (fun s v => serVal fuel 
         intro o s' h
         simp only [Except.ok.injEq, Prod.mk.injEq] at h
         rw [← h.2]
-        exact ⟨rfl, fun _ h => h⟩
-      | some payload => exact serPtr_nodl _ ih s k p payload hs
+        exact ⟨rfl, grow_refl s, rfl, ht, Nat.le_refl _⟩
+      | some payload => exact serPtr_nodl _ ih s k p payload hs ht hp h1
 
 end SaphyrVerif.Lemmas.C14
